@@ -1,7 +1,7 @@
 #!/bin/sh
 # usage: trymutant.sh <patch> <ID> [tier]  -- apply a seeded change to /repo, run a check, undo it
 set -u
-patch=$1; id=$2; tier=${3:-quick}
+patch=$(readlink -f "$1"); id=$2; tier=${3:-quick}
 git -C /repo apply "$patch" || { echo "patch does not apply"; exit 3; }
 cd /verif && ./bin/check "$id" --tier "$tier" > /tmp/mut-$id.out 2>&1; rc=$?
 git -C /repo checkout -- .
